@@ -9,6 +9,7 @@
 //         N <hex of name>                       lookup by name (+ manager createForZoneName)
 //         I <decimal id>                        lookup by id   (+ createForZoneId)
 //         X <index>                             lookup by index (+ createForZoneIndex)
+//         M <basic|extended> <listA>;<listB>;.. several registrars alive in ONE process, every lookup alternating between them
 // stdout: one JSON line per query
 #include <stdio.h>
 #include <stdlib.h>
@@ -111,6 +112,59 @@ struct World {
   }
 };
 
+
+// several registrars / managers of the same kind alive in one process: every id, name and index is looked up on each of
+// them in turn (A, B, .., A again), so that nothing remembered from one registry can leak into the answer for another
+template <typename ZI, typename ZRB, typename ZIB, typename ZONE, typename CACHE>
+static void multi(const ZI* const* shipped, const std::vector<std::vector<int>>& lists) {
+  typedef World<ZI, ZRB, ZIB, ZONE, CACHE> W;
+  std::vector<W*> ws;
+  std::vector<typename W::Reg*> regs;
+  std::vector<typename W::Mgr*> mgrs;
+  for (size_t k = 0; k < lists.size(); k++) {
+    W* w = new W(shipped, lists[k]);
+    ws.push_back(w);
+    regs.push_back(new typename W::Reg((uint16_t) w->n, w->arr));
+    mgrs.push_back(new typename W::Mgr((uint16_t) w->n, w->arr));
+  }
+  g_budget = 1000000;
+  long nq = 0, nbad = 0;
+  std::string first;
+  std::vector<int> all;
+  for (size_t k = 0; k < lists.size(); k++) for (int z : lists[k]) all.push_back(z);
+  for (int round = 0; round < 2; round++) for (int z : all) {
+    const ZI* zi = shipped[z];
+    uint32_t id = ZONE(zi).zoneId();
+    std::string name = (const char*) ZONE(zi).name();
+    for (size_t kk = 0; kk <= lists.size(); kk++) {
+      size_t k = kk % lists.size();
+      int want = -1;
+      for (int i = 0; i < ws[k]->n; i++) if (ws[k]->arr[i] == zi) { want = i; break; }
+      uint16_t wantu = want < 0 ? (uint16_t) 0xffff : (uint16_t) want;
+      g_probes.clear();
+      uint16_t ri = regs[k]->findIndexForId(id);
+      const ZI* gi = regs[k]->getZoneInfoForId(id);
+      uint16_t rn = regs[k]->findIndexForName(name.c_str());
+      TimeZone ti = mgrs[k]->createForZoneId(id);
+      TimeZone tn = mgrs[k]->createForZoneName(name.c_str());
+      uint16_t mi = mgrs[k]->indexForZoneId(id);
+      nq += 6;
+      bool ok = ri == wantu && rn == wantu && mi == wantu && (want < 0 ? gi == nullptr : gi == zi)
+          && (want < 0 ? (ti.isError() && tn.isError()) : (!ti.isError() && !tn.isError() && ti.getZoneId() == id && tn.getZoneId() == id));
+      if (!ok) {
+        nbad++;
+        if (first.empty()) {
+          char b[256];
+          snprintf(b, sizeof b, "{\"zone\":%s,\"registry\":%d,\"want\":%d,\"byId\":%u,\"byName\":%u,\"mgrIndex\":%u,\"tzErr\":[%d,%d]}", jstr(name.c_str()).c_str(), (int) k, want, (unsigned) ri, (unsigned) rn, (unsigned) mi, (int) ti.isError(), (int) tn.isError());
+          first = b;
+        }
+      }
+    }
+  }
+  printf("{\"multi\":1,\"nq\":%ld,\"nbad\":%ld,\"first\":%s}\n", nq, nbad, first.empty() ? "null" : first.c_str());
+  fflush(stdout);
+}
+
 static std::string unhex(const char* h) {
   std::string s;
   for (; h[0] && h[1] && h[0] != '\n'; h += 2) { char t[3] = { h[0], h[1], 0 }; s.push_back((char) strtol(t, nullptr, 16)); }
@@ -131,6 +185,31 @@ int main() {
       basic = !strcmp(kind, "basic");
       idx.clear();
       if (strcmp(lst, "-")) for (char* t = strtok(lst, ","); t; t = strtok(nullptr, ",")) idx.push_back(atoi(t));
+      continue;
+    }
+    if (line[0] == 'M') {
+      char kind[16]; static char lst[1 << 16];
+      lst[0] = 0;
+      sscanf(line, "M %15s %65535s", kind, lst);
+      std::vector<std::vector<int>> lists;
+      char* save1 = nullptr;
+      for (char* part = strtok_r(lst, ";", &save1); part; part = strtok_r(nullptr, ";", &save1)) {
+        std::vector<int> one;
+        char* save2 = nullptr;
+        if (strcmp(part, "-")) for (char* t = strtok_r(part, ",", &save2); t; t = strtok_r(nullptr, ",", &save2)) one.push_back(atoi(t));
+        lists.push_back(one);
+      }
+      fflush(stdout);
+      pid_t pid = fork();
+      if (pid == 0) {
+        alarm(20);
+        if (!strcmp(kind, "basic")) multi<basic::ZoneInfo, basic::ZoneRegistryBroker, basic::ZoneInfoBroker, BasicZone, BasicZoneProcessorCache<1>>(zonedb::kZoneRegistry, lists);
+        else multi<extended::ZoneInfo, extended::ZoneRegistryBroker, extended::ZoneInfoBroker, ExtendedZone, ExtendedZoneProcessorCache<1>>(zonedbx::kZoneRegistry, lists);
+        _exit(0);
+      }
+      int status = 0;
+      waitpid(pid, &status, 0);
+      if (!(status != -1 && WIFEXITED(status) && WEXITSTATUS(status) == 0)) { printf("{\"multi\":1,\"crash\":%d}\n", status); fflush(stdout); }
       continue;
     }
     if (line[0] != 'N' && line[0] != 'I' && line[0] != 'X') continue;
